@@ -478,7 +478,8 @@ Definition c05_step (V : view) (ob : obs) : clauses :=
 Definition mon_C05 := mon_run (stateless c05_step) tt.
 
 (* ================= C06: journal SOL custody ================= *)
-(* ghost: (SOL paid in by validators, collectible debt of swept distributions) *)
+(* ghost: (SOL paid in by validators, the swept distributions); the identity reads their collectible debt in the state after
+   the step, so a write-off that lowers it after the sweep breaks clause 2 *)
 Definition swap_buy_of (o : op) : option (key * N * N * list meta * tx) :=      (* swap program, 2Z, SOL *)
   match single o with
   | Some (KSwapMock, IxSwap (SBuySol z sol), ms, _, t) =>
@@ -490,19 +491,25 @@ Definition swap_buy_of (o : op) : option (key * N * N * list meta * tx) :=      
                                nth 6 ms (mk default_key false false); nth 7 ms (mk default_key false false);
                                nth 1 ms (mk default_key false false); nth 2 ms (mk default_key false false)], t)
   | _ => None end.
-Definition c06_step (g : N * N) (V : view) (ob : obs) : (N * N) * clauses :=
+Definition c06_step (g : N * list key) (V : view) (ob : obs) : (N * list key) * clauses :=
   let '(o, ok, post) := ob in
   if negb (ok && is_tx o) then (g, []) else
-  let '(paid_in, swept_debt) := g in
+  let '(paid_in, swept) := g in
   let g' := match single_rd o with
-            | Some (RPayDebt amount _, _, _) => (paid_in + amount, swept_debt)
-            | Some (RSweep, ms, _) => match dist_of (vget V (nthk ms 1)) with Some (d0, _) => (paid_in, swept_debt + collectible d0) | None => g end
+            | Some (RPayDebt amount _, _, _) => (paid_in + amount, swept)
+            | Some (RSweep, ms, _) => match dist_of (vget V (nthk ms 1)) with Some _ => (paid_in, nthk ms 1 :: swept) | None => g end
             | _ => g end in
+  let swept_debt := sumN (map (fun k => match dist_of (post_of V post k) with Some (d, _) => collectible d | None => 0 end) (snd g')) in
+  let jpost := post_of V post KRdJournal in
+  (* the conservation identity, after every accepted transaction (whichever accounts it touched) *)
+  let ident := match journal_of jpost with
+               | Some j => if negb (key_eqb (owner jpost) KRd) then [] else
+                           chk (fst g' =? j_total_sol j + j_swapped_sol j + swept_debt) KRdJournal 2 (fst g')
+               | None => [] end in
   let inv := flat_map (fun '(k, a) =>
     match journal_of a with
     | Some j =>
         chk (rent (alen a) + j_total_sol j <=? lamports a) k 1 (lamports a) ++
-        (if key_eqb k KRdJournal then chk (fst g' =? j_total_sol j + j_swapped_sol j + snd g') k 2 (fst g') else []) ++
         (* SOL leaves the journal only through a swap-program withdrawal *)
         (if lamports a <? lamports (vget V k) then
            match swap_buy_of o with
@@ -529,8 +536,8 @@ Definition c06_step (g : N * N) (V : view) (ob : obs) : (N * N) * clauses :=
         (* a bare top-level WithdrawSol never succeeds: there is no PDA signature at the top level *)
         match single_rd o with Some (RWithdrawSol a, ms, _) => [(nthk ms 2, 11, a)] | _ => [] end
     end in
-  (g', inv ++ wd).
-Definition mon_C06 := mon_run c06_step (0, 0).
+  (g', ident ++ inv ++ wd).
+Definition mon_C06 := mon_run c06_step (0, []).
 
 (* ================= C07: privileged actions need the current role's signature ================= *)
 Inductive role := RoleUpgrade (prog : key) | RoleAdmin | RoleDebt | RoleRewards | RoleContribMgr | RoleRewardsMgr
